@@ -75,7 +75,10 @@ PROPS = {
                 "random values): object.Cmp both ways and on itself, object.Equals both ways and against an independently built copy, "
                 "and `< <= > >= == !=` both ways plus min/max evaluated from grol source. T lines: triples (quick: a quarter of all "
                 "numeric triples + 60k random triples + all triples inside every window of 4 neighbours in the implementation's own order; thorough: all ~2.1M triples of the universe + 300k random + windows) with Cmp/Equals on "
-                "(a,b),(b,c),(a,c). The driver recomputes everything with the model and evaluates the order axioms on the "
+                "(a,b),(b,c),(a,c). O lines (403 / 6003): SORTING - sort.Sort on an object.BigArray (BigArray.Less, the only sorting in grol) of 9-48 values drawn from the "
+                "numbers, from all data values, or from a sub-universe of 2-5 values (many equivalent ones): the result must hold exactly the given values and be in "
+                "`<=` order (the model's insertion sort agrees up to the order of equivalent values). N lines (1500 / 20000): min and max of 3-6 values from grol source: the result is "
+                "one of the arguments and no argument is smaller / larger. The driver recomputes everything with the model and evaluates the order axioms on the "
                 "implementation's results. non-trivial = all operands are data values (no RETURN/MACRO object).",
         "trusted_base": COMMON_TB + ["modelled: object/object.go Cmp, cmpIntFloat, Equals, TypeEqual, IsIntType, areIntFloat, Value (registers), "
                                      "Go's cmp.Compare on int64/string/float64, math.Trunc and int64(float64) on the exact value of a binary64; "
